@@ -50,6 +50,14 @@ Lemma gen_structure :
   && process_event_uses_extracted_id_and_root = true.
 Proof. reflexivity. Qed.
 
+(* the documented defaults of IDFields.TraceNames / ParentNames (struct tags of config.IDFieldsConfig),
+   which the driver takes as the configured lists when the operator's file sets none *)
+Lemma gen_id_field_defaults :
+  id_fields_config =
+  [("TraceNames", ["TraceNames"; "[""trace.trace_id"",""traceId""]"]);
+   ("ParentNames", ["ParentNames"; "[""trace.parent_id"",""parentId""]"])].
+Proof. reflexivity. Qed.
+
 Lemma gen_table_ok : forall tn pn, table_ok (gen_cfg tn pn) = true.
 Proof. reflexivity. Qed.
 
